@@ -185,5 +185,41 @@ func checkEVMTxBlockedTarget(tx *Transaction, logHeight int64, txhash string) er
 		tlog.Error("CheckTxBlockedAccount hit", "txhash", txhash, "height", logHeight, "pos", "evmPara", "addr", addr)
 		return fmt.Errorf("%w: evm transfer to %s", ErrBlockedAccount, addr)
 	}
+	// 代理执行交易(ForkProxyExec): Para 为序列化的内层 chain33 交易, 执行时由内层交易替换外层交易,
+	// 入口层(mempool / 延时交易)只能看到外层交易, 这里对内层交易的接收方做同样的判定(发送方即外层签名者, 已判定)
+	if inner := decodeProxyInnerTx(action.GetPara()); inner != nil {
+		if to := inner.GetTo(); IsBlockedAccount(to) {
+			tlog.Error("CheckTxBlockedAccount hit", "txhash", txhash, "height", logHeight, "pos", "proxyInnerTo", "addr", to)
+			return fmt.Errorf("%w: proxy inner to %s", ErrBlockedAccount, to)
+		}
+		if realTo := inner.GetRealToAddr(); realTo != inner.GetTo() && IsBlockedAccount(realTo) {
+			tlog.Error("CheckTxBlockedAccount hit", "txhash", txhash, "height", logHeight, "pos", "proxyInnerRealTo", "addr", realTo)
+			return fmt.Errorf("%w: proxy inner real to %s", ErrBlockedAccount, realTo)
+		}
+		// 内层为 EVM 交易时只判定其合约/转账目标, 不再继续展开
+		if string(GetRealExecName(inner.GetExecer())) == evmExecName {
+			innerAction := new(EVMContractAction4Chain33)
+			if err := Decode(inner.GetPayload(), innerAction); err == nil {
+				if addr := innerAction.GetContractAddr(); addr != "" && IsBlockedAccount(addr) {
+					return fmt.Errorf("%w: proxy inner evm contract addr %s", ErrBlockedAccount, addr)
+				}
+				if IsBlockedAccountRaw(innerAction.GetPara()) {
+					return fmt.Errorf("%w: proxy inner evm transfer to %s", ErrBlockedAccount, common.ToHex(innerAction.GetPara()))
+				}
+			}
+		}
+	}
 	return nil
+}
+
+// decodeProxyInnerTx 代理执行交易的 Para 为内层交易的序列化数据, 无法解析为带执行器名的交易时返回 nil
+func decodeProxyInnerTx(para []byte) *Transaction {
+	if len(para) <= 20 {
+		return nil
+	}
+	inner := new(Transaction)
+	if err := Decode(para, inner); err != nil || len(inner.GetExecer()) == 0 {
+		return nil
+	}
+	return inner
 }
